@@ -97,6 +97,10 @@ def dflt(x, y=2.0):
     return x * y
 
 
+def alldef(x=3.0):
+    return x * 2.0
+
+
 def asg(x, y):
     z = x - y
     w = z * y
@@ -161,6 +165,12 @@ def loc3(c, a, b):
 
 
 def make_package() -> str:
+    import linecache
+
+    for m in [m for m in sys.modules if m == "c06h" or m.startswith(("c06pkg", "c06gen_", "c06rep_"))]:
+        del sys.modules[m]  # helpers of an earlier (removed) package must not be reused
+    sys.path[:] = [p for p in sys.path if not os.path.basename(p).startswith("c06_")]
+    linecache.clearcache()
     d = tempfile.mkdtemp(prefix="c06_")
     with open(os.path.join(d, "c06h.py"), "w") as f:
         f.write(HELPER_SRC)
@@ -499,7 +509,7 @@ def compare_on(fn, expr, names, points, selected, val):
     return list(first.values()), ncmp
 
 
-def check_function(st, mod, name, params, src, full_renamings: bool):
+def check_function(st, mod, name, params, src, rens):
     """The contract on one generated function.  Returns a dict with outcome + failures."""
     import sympy
 
@@ -515,6 +525,9 @@ def check_function(st, mod, name, params, src, full_renamings: bool):
     points, selected, val = make_grid(fn, twin, n)
     defined = sum(1 for p in points if val[p] is not None)
     out["defined_points"] = defined
+    if defined == 0:
+        out["outcome"] = "vacuous"  # Python defines no value anywhere on the grid: nothing is claimed
+        return out
     base_bad = False
     if kind == "expr":
         out["outcome"] = "translated"
@@ -526,7 +539,7 @@ def check_function(st, mod, name, params, src, full_renamings: bool):
             out["failures"].append({"symptom": symptom, "renaming": None, "args": args, "python": pv, "sympy": sv, "expr": str(e0)[:200]})
     if base_bad:
         return out  # the same defect would show under every renaming
-    for ren in renamings(n, full_renamings):
+    for ren in rens:
         k2, er = translate(st, fn, ren)
         out["translations"] += 1
         if k2 != "expr":
@@ -583,7 +596,7 @@ VALUE_LEAVES = [
     # keyword arguments, defaults, stars
     ("call-kw-last", "loc(a, y=b)"), ("call-kw-all", "loc(x=a, y=b)"), ("call-kw-all-reordered", "loc(y=a, x=b)"), ("call-kw-module", "c06h.sub(y=a, x=b)"),
     ("call-kw-one-param", "c06h.scaled(x=a) - b"), ("call-kw-callee-uses-caller-names", "locab(a=a, b=b)"), ("call-kw-callee-uses-caller-names-2", "locab(b=a, a=b)"),
-    ("call-default-omitted", "c06h.dflt(a) - b"), ("call-default-given", "c06h.dflt(a, b)"), ("call-star", "loc(*[a, b])"), ("call-unknown", "nosuchfn(a, b)"),
+    ("call-default-omitted", "c06h.dflt(a) - b"), ("call-default-given", "c06h.dflt(a, b)"), ("call-all-defaults", "c06h.alldef() * a - b"), ("call-star", "loc(*[a, b])"), ("call-starstar", "loc(**{'x': a, 'y': b})"), ("call-unknown", "nosuchfn(a, b)"),
     ("call-unknown-attr", "c06h.nosuchfn(a, b)"),
     # table functions on arguments and on literals
     ("fn-exp", "math.exp(a) - b"), ("fn-exp-from", "exp(a) - b"), ("fn-sqrt-np", "np.sqrt(a) - b"), ("fn-abs", "abs(a - b)"), ("fn-min", "min(a, b)"),
@@ -632,26 +645,620 @@ def e1_cases():
     for tag, e in VALUE_LEAVES:
         for cname, mk in VALUE_CONTEXTS.items():
             body = mk(e)
-            out.append((f"value:{tag}:{cname}", _nparams("\n".join(["def f():"] + [" " + b for b in body])), body))
+            params = _nparams("\n".join(["def f():"] + [" " + b for b in body]))
+            out.append((f"value:{tag}:{cname}", params, body, renamings(len(params), True)))
     for tag, c in COND_LEAVES:
         for cname, mk in COND_CONTEXTS.items():
             body = mk(c)
-            out.append((f"test:{tag}:{cname}", _nparams("\n".join(["def f():"] + [" " + b for b in body])), body))
+            params = _nparams("\n".join(["def f():"] + [" " + b for b in body]))
+            out.append((f"test:{tag}:{cname}", params, body, renamings(len(params), True)))
     return out
 
 
-def run_cases(pkgdir, modname, cases, full_renamings):
-    """cases: [(class_tag, params, body)] -> list of result dicts (with tag, source)"""
+def run_cases(pkgdir, modname, cases):
+    """cases: [(class_tag, params, body, renamings)] -> list of result dicts (with tag, source)"""
     import mxlpy.meta.source_tools as st
 
-    fns = [(f"f{i}", params, body) for i, (_, params, body) in enumerate(cases)]
+    fns = [(f"f{i}", c[1], c[2]) for i, c in enumerate(cases)]
     mod = load_module(pkgdir, modname, fns)
     res = []
-    for (name, params, body), (tag, _, _) in zip(fns, cases):
+    for (name, params, body), case in zip(fns, cases):
         src = fn_source(name, params, body)
-        r = check_function(st, mod, name, params, src, full_renamings)
-        r["tag"] = tag
+        r = check_function(st, mod, name, params, src, case[3])
+        r["tag"] = case[0]
         r["source"] = src.strip()
         r["params"] = list(params)
         res.append(r)
+    sys.modules.pop(modname, None)
     return res
+
+
+# ---------------------------------------------------------------------------
+# E2: statement skeletons.  A skeleton is the control structure of a body: leaves are
+# "B" (a binding statement: assignment, reassignment of a parameter, tuple assignment or
+# one of the statements just outside the subset) and "R" (return); an if statement is
+# ("I", (branch_block, ...), else_block | None) with one block per if/elif test.
+
+_SK_CACHE: dict = {}
+
+
+def sk_blocks(n: int, d: int, maxlen: int):
+    """all blocks (tuples of statements) with exactly n leaves, nesting <= d, <= maxlen statements"""
+    key = ("b", n, d, maxlen)
+    if key in _SK_CACHE:
+        return _SK_CACHE[key]
+    out = []
+    if n == 0:
+        out.append(())
+    elif maxlen > 0:
+        for k in range(1, n + 1):
+            for s in sk_stmts(k, d):
+                if s == "R":
+                    if n == k:
+                        out.append((s,))
+                    continue  # nothing after a return in the same block
+                out.extend((s, *rest) for rest in sk_blocks(n - k, d, maxlen - 1))
+    _SK_CACHE[key] = out
+    return out
+
+
+def sk_stmts(n: int, d: int):
+    key = ("s", n, d)
+    if key in _SK_CACHE:
+        return _SK_CACHE[key]
+    out = []
+    if n == 1:
+        out += ["B", "R"]
+    if d > 0:
+        for nb in (1, 2, 3):
+            for has_else in (False, True):
+                parts = nb + (1 if has_else else 0)
+                if parts > n:
+                    continue
+                for sizes in itertools.product(range(1, n + 1), repeat=parts):
+                    if sum(sizes) != n:
+                        continue
+                    for combo in itertools.product(*[sk_blocks(s, d - 1, 2) for s in sizes]):
+                        out.append(("I", tuple(combo[:nb]), combo[nb] if has_else else None))
+    _SK_CACHE[key] = out
+    return out
+
+
+def sk_str(block) -> str:
+    def st(s):
+        if isinstance(s, str):
+            return s
+        _, brs, els = s
+        txt = "if{" + "}elif{".join(sk_str(b) for b in brs) + "}"
+        if els is not None:
+            txt += "else{" + sk_str(els) + "}"
+        return txt
+
+    return ";".join(st(s) for s in block)
+
+
+# (template, names it needs bound, names it binds)
+BIND_PLAIN = (
+    ("t = {e}", (), ("t",)), ("t = {e}", (), ("t",)), ("u = {e}", (), ("u",)), ("a = {e}", (), ()), ("b = {e}", (), ()),
+    ("t, u = {e}, {f}", (), ("t", "u")), ("a, b = b, a", (), ()), ("u, t = t, {e}", ("t",), ("t", "u")), ("t, a = a, t", ("t",), ()),
+)
+BIND_OUTSIDE = (
+    ("t += {e}", ("t",), ()), ("t: float = {e}", (), ("t",)), ("for _k in range(2): t = t + {e}", ("t",), ()), ("while t < 1.0: t = t + 1.0", ("t",), ()),
+    ("t = u = {e}", (), ("t", "u")), ("pass", (), ()), ("'a docstring'", (), ()), ("a -= {e}", (), ()), ("t *= 2.0", ("t",), ()),
+)
+EXPRS = (
+    ("a - b", ()), ("b * 2.0", ()), ("a * b", ()), ("K - a", ()), ("a + 1.0", ()), ("loc(b, a)", ()), ("a", ()), ("1.5", ()),
+    ("t + a", ("t",)), ("t * b - 1.0", ("t",)), ("t", ("t",)), ("b - t", ("t",)), ("loc(t, b)", ("t",)), ("t * 2.0", ("t",)),
+    ("u - t", ("t", "u")), ("t - u * 2.0", ("t", "u")), ("u + a", ("u",)),
+)
+TESTS = (
+    ("a > b", ()), ("a <= 1.0", ()), ("0.0 < b < a", ()), ("b >= 2.0", ()), ("a < b", ()), ("a - b > 0.5", ()), ("a >= 0.5", ()),
+    ("t > 1.0", ("t",)), ("t >= a", ("t",)), ("t < b <= 2.5", ("t",)), ("u > t", ("t", "u")),
+)
+TESTS_EQ = (("a == b", ()), ("a != b", ()), ("a == 1.0", ()), ("t != 1.0", ("t",)), ("t == a", ("t",)))
+
+
+def _pick(rng, pool, bound):
+    ok = [x for x in pool if all(n in bound for n in x[1])]
+    if rng.random() < 0.93:
+        pref = [x for x in ok if x[1]]  # prefer reading a local when one is bound
+        return rng.choice(pref if pref and rng.random() < 0.6 else ok)
+    return rng.choice(pool)
+
+
+def fill(block, rng, flavour: str):
+    """instantiate a skeleton with statements / expressions / tests; flavour in plain | eq | outside.
+    `bound` tracks the locals that are certainly bound, so that most bodies are defined somewhere."""
+
+    def bind(bound):
+        pool = BIND_OUTSIDE if flavour == "outside" and rng.random() < 0.45 else BIND_PLAIN
+        tpl, _, binds = _pick(rng, pool, bound)
+        if "t" not in bound and "t" not in binds and rng.random() < 0.6:
+            tpl, binds = "t = {e}", ("t",)
+        line = tpl.format(e=_pick(rng, EXPRS, bound)[0], f=_pick(rng, EXPRS, bound)[0])
+        return line, bound | set(binds)
+
+    def blk(b, ind, bound):
+        """returns (lines, bound afterwards | None if the block always returns)"""
+        lines = []
+        for s in b:
+            if s == "B":
+                line, bound = bind(bound)
+                lines.append(ind + line)
+            elif s == "R":
+                lines.append(ind + "return " + _pick(rng, EXPRS, bound)[0])
+                return lines, None
+            else:
+                _, brs, els = s
+                after = []
+                for i, br in enumerate(brs):
+                    pool = TESTS_EQ if flavour == "eq" and rng.random() < 0.5 else TESTS
+                    lines.append(f"{ind}{'if' if i == 0 else 'elif'} {_pick(rng, pool, bound)[0]}:")
+                    ls, bd = blk(br, ind + "    ", set(bound))
+                    lines.extend(ls)
+                    after.append(bd)
+                if els is not None:
+                    lines.append(f"{ind}else:")
+                    ls, bd = blk(els, ind + "    ", set(bound))
+                    lines.extend(ls)
+                    after.append(bd)
+                else:
+                    after.append(set(bound))
+                live = [x for x in after if x is not None]
+                bound = set.intersection(*live) if live else bound  # every branch returns: what follows is dead code, still generated
+        return lines, bound
+
+    return blk(block, "", set())[0]
+
+
+def sk_has_return(block) -> bool:
+    return any(s == "R" or (not isinstance(s, str) and (any(sk_has_return(b) for b in s[1]) or (s[2] is not None and sk_has_return(s[2])))) for s in block)
+
+
+EXPRS3 = (("a - c", ()), ("c * b", ()), ("c - t", ("t",)), ("loc3(c, a, b)", ()), ("c", ()))
+TESTS3 = (("b < c", ()), ("a < b <= c", ()), ("c >= 1.0", ()), ("t > c", ("t",)))
+
+
+def fill3(block, rng):
+    """a filling over three parameters (a, b, c)"""
+    global EXPRS, TESTS
+    saved = EXPRS, TESTS
+    EXPRS, TESTS = (*EXPRS3, *EXPRS3, *saved[0]), (*TESTS3, *TESTS3, *saved[1])
+    try:
+        return fill(block, rng, "plain")
+    finally:
+        EXPRS, TESTS = saved
+
+
+def e2_cases(tier: str):
+    """EVERY skeleton with a return up to the size bound x seeded fillings.  Returns (cases, bound text)."""
+    base = seed()
+    cases = []
+    idx = 0
+
+    def add(sk, flavours):
+        nonlocal idx
+        for k, fl in enumerate(flavours):
+            rng = random.Random(base * 1000003 + idx * 131 + k)
+            if fl == "three":
+                body, params = fill3(sk, rng), ("a", "b", "c")
+                if not any("c" in ln.replace("loc(", "") for ln in body):
+                    params = ("a", "b")
+            else:
+                body, params = fill(sk, rng, fl), ("a", "b")
+            pool = renamings(len(params), True)
+            nren = 2 if tier == "quick" else 4
+            rens = tuple(dict.fromkeys(pool[(idx * 5 + k * 3 + j * 7) % len(pool)] for j in range(nren)))
+            cases.append((f"body:{sk_str(sk)}", params, body, rens))
+        idx += 1
+
+    small = [b for n in (1, 2, 3) for b in sk_blocks(n, 2, 3) if sk_has_return(b)]
+    four1 = [b for b in sk_blocks(4, 1, 3) if sk_has_return(b)]
+    four2 = [b for b in sk_blocks(4, 2, 3) if sk_has_return(b) and b not in set(four1)]
+    if tier == "quick":
+        for i, sk in enumerate(small):
+            add(sk, ("plain", "eq") if i % 2 == 0 else ("plain", "outside"))
+        for i, sk in enumerate(four1):
+            add(sk, ("plain",) if i % 2 == 0 else ("three",))
+        rng = random.Random(base + 17)
+        for sk in rng.sample(four2, 800):
+            add(sk, ("plain",))
+        bound = (f"all {len(small)} statement skeletons with <= 3 leaf statements (nesting <= 2, blocks <= 3 statements, <= 2 elif, with a return) x 2 fillings; "
+                 f"all {len(four1)} skeletons with 4 leaves and nesting <= 1 x 1 filling; 800 of the {len(four2)} skeletons with 4 leaves and nesting 2 x 1 filling; 2 renamings each")
+    else:
+        for sk in small:
+            add(sk, ("plain", "eq", "outside", "three") * 3)
+        for sk in four1:
+            add(sk, ("plain", "eq", "outside", "three"))
+        for sk in four2:
+            add(sk, ("plain", "outside", "eq"))
+        five1 = [b for b in sk_blocks(5, 1, 3) if sk_has_return(b)]
+        for sk in five1:
+            add(sk, ("plain", "three"))
+        bound = (f"all {len(small)} statement skeletons with <= 3 leaf statements (nesting <= 2, blocks <= 3 statements, <= 2 elif, with a return) x 12 fillings; "
+                 f"all {len(four1) + len(four2)} skeletons with 4 leaves x 3-4 fillings; all {len(five1)} skeletons with 5 leaves and nesting <= 1 x 2 fillings; 4 renamings each")
+    return cases, bound
+
+
+# ---------------------------------------------------------------------------
+# E3: the tables
+
+
+def table_entries():
+    """[(source_name, py_fn, sympy_target)] for every KNOWN_FNS entry that can be named in source"""
+    import numpy as np
+
+    import mxlpy.meta.source_tools as st
+
+    out, unnamed = [], []
+    for fn, target in st.KNOWN_FNS.items():
+        name = None
+        cands = []
+        nm = getattr(fn, "__name__", None)
+        if nm:
+            cands = [nm, f"math.{nm}", f"np.{nm}"]
+        for c in cands:
+            try:
+                if eval(c, {"math": math, "np": np}) is fn:  # noqa: S307
+                    name = c
+                    break
+            except Exception:  # noqa: BLE001
+                continue
+        if name is None:
+            unnamed.append(repr(fn))
+        else:
+            out.append((name, fn, target))
+    return out, unnamed
+
+
+T_UN = (-2.5, -1.0, -0.5, 0.0, 0.5, 1.0, 2.0, 2.5)
+T_BIN_Q = (-2.5, 0.0, 0.5, 2.0)
+T_BIN_T = (-2.5, -1.0, 0.0, 0.5, 2.0, 3.0)
+T_INT_UN = (0, 1, 3, 5)
+T_INT_BIN = ((4, 6), (3, 5), (0, 4), (2, 10), (-4, 6))
+
+
+def _lit(v) -> str:
+    return repr(v)
+
+
+def e3_cases(tier: str):
+    """for every table entry: fn(<literals>) for every literal tuple on which Python defines a value, and fn(<arguments>)"""
+    entries, unnamed = table_entries()
+    tb = T_BIN_Q if tier == "quick" else T_BIN_T
+    tuples = [(v,) for v in T_UN] + [(v,) for v in T_INT_UN] + list(itertools.product(tb, repeat=2)) + list(T_INT_BIN)
+    cases, info = [], {"unnamed": unnamed, "not_checkable_on_scalars": [], "direct_meaning_differs": {}}
+    import sympy
+
+    for name, fn, target in entries:
+        kept = []
+        for tup in tuples:
+            pv = py_eval(fn, tup)
+            if pv is None:
+                continue
+            kept.append(tup)
+            # informational: the meaning of the table target itself
+            try:
+                sv = target(*[sympy.Float(v) if isinstance(v, float) else sympy.Integer(v) for v in tup])
+                kind, val = sym_eval(sv if isinstance(sv, sympy.Basic) else sympy.sympify(sv), {})
+            except Exception as e:  # noqa: BLE001
+                kind, val = "undef", type(e).__name__
+            if not (kind == "num" and close(pv, val)):
+                info["direct_meaning_differs"].setdefault(name, {"target": getattr(target, "__name__", str(target)), "example": [list(tup), pv, val if kind == "num" else str(val)]})
+        if not kept:
+            info["not_checkable_on_scalars"].append(name)
+            continue
+        for tup in kept:
+            cases.append((f"table:{name}:literal", ("a",), [f"return a + {name}({', '.join(_lit(v) for v in tup)})"], ()))
+        arities = sorted({len(tup) for tup in kept})
+        for ar in arities:
+            params = ("a", "b")[:ar]
+            cases.append((f"table:{name}:arguments", ("a", "b"), [f"return {name}({', '.join(params)}) + b"], (("b", "a"), ("p", "q"))))
+    return cases, info, len(entries)
+
+
+def check_constants():
+    """KNOWN_CONSTANTS entry by entry: the sympy constant must evaluate to the float it stands for"""
+    import sympy
+
+    import mxlpy.meta.source_tools as st
+
+    bad, n = [], 0
+    for k, v in st.KNOWN_CONSTANTS.items():
+        n += 1
+        if math.isnan(k):
+            ok = v is sympy.nan
+        elif math.isinf(k):
+            ok = v is (sympy.oo if k > 0 else -sympy.oo)
+        else:
+            ok = close(k, float(sympy.sympify(v).evalf()))
+        if not ok:
+            bad.append((repr(k), str(v)))
+    return bad, n
+
+
+# ---------------------------------------------------------------------------
+# failure classes (keys)
+
+_UNSUPPORTED = (ast.AugAssign, ast.AnnAssign, ast.For, ast.While, ast.With, ast.Try, ast.Delete, ast.Global, ast.Nonlocal)
+
+
+def body_features(src: str) -> list[str]:
+    """syntactic features of a generated body, from its own AST (independent of the translator)"""
+    fn = ast.parse(src).body[0]
+    feats = set()
+
+    def binds(stmts):
+        return any(isinstance(n, (ast.Assign, ast.AugAssign, ast.AnnAssign)) for s in stmts for n in ast.walk(s))
+
+    def walk(stmts, inside_if):
+        for i, s in enumerate(stmts):
+            if isinstance(s, _UNSUPPORTED):
+                feats.add("statement-outside-subset")
+            if isinstance(s, ast.Assign):
+                if len(s.targets) > 1:
+                    feats.add("chained-assignment")
+                tg = s.targets[0]
+                if isinstance(tg, ast.Tuple):
+                    names = {e.id for e in tg.elts if isinstance(e, ast.Name)}
+                    if names & {n.id for n in ast.walk(s.value) if isinstance(n, ast.Name)}:
+                        feats.add("tuple-assignment-reads-its-own-targets")
+            if isinstance(s, ast.If):
+                branches = [s.body, s.orelse] if s.orelse else [s.body]
+                if any(binds(b) for b in branches):
+                    feats.add("binding-inside-branch")
+                if i + 1 < len(stmts):
+                    feats.add("code-after-if-else" if _has_else(s) else "code-after-if-without-else")
+                if inside_if:
+                    feats.add("nested-if")
+                walk(s.body, True)
+                walk(s.orelse, inside_if if len(s.orelse) == 1 and isinstance(s.orelse[0], ast.If) else True)
+        if stmts and isinstance(stmts[-1], ast.If) and not _has_else(stmts[-1]) and inside_if:
+            feats.add("nested-if-without-else")
+
+    def _has_else(node):
+        while node.orelse:
+            if len(node.orelse) == 1 and isinstance(node.orelse[0], ast.If):
+                node = node.orelse[0]
+            else:
+                return True
+        return False
+
+    walk(fn.body, False)
+    feats.discard("nested-if")
+    control = sorted(feats & {"binding-inside-branch", "code-after-if-else", "code-after-if-without-else", "nested-if-without-else"})
+    if control:
+        return control  # the control structure decides the class; the forms of the statements only matter in straight-line bodies
+    for n in ast.walk(fn):
+        if isinstance(n, ast.Compare) and any(isinstance(o, (ast.Eq, ast.NotEq)) for o in n.ops):
+            feats.add("equality-test")
+    return sorted(feats)
+
+
+def renaming_class(params, ren) -> str:
+    if len(set(ren)) < len(ren):
+        return "one-model-name-for-two-arguments"
+    own = set(params)
+    if set(ren) == own:
+        return "own-parameter-names-permuted"
+    if own & set(ren) and any(r in own and r != p for p, r in zip(params, ren)):
+        return "own-parameter-name-used-for-another-argument"
+    return "other-names"
+
+
+def failure_key(tag: str, src: str, params, f: dict) -> str:
+    part = tag.split(":")
+    if f["renaming"] is not None:
+        return f"bounded:renamed-arguments-change-the-value:{renaming_class(params, f['renaming'])}"
+    sym = f["symptom"]
+    if part[0] in ("value", "test"):
+        return f"bounded:{sym}:{part[0]}:{part[1]}"
+    if part[0] == "table":
+        return f"bounded:{sym}:table:{part[1]}:{part[2]}"
+    feats = body_features(src)
+    return f"bounded:{sym}:body:{'+'.join(feats) if feats else 'plain:' + part[1]}"
+
+
+# ---------------------------------------------------------------------------
+# run-time contract around the real fn_to_sympy (also sees the recursive calls for nested functions)
+
+_CONTRACT = {"top": 0, "nested": 0, "violations": []}
+
+
+def install_contract(st):
+    import sympy
+
+    if getattr(st.fn_to_sympy, "__c06_wrapped__", None):
+        return
+    orig = st.fn_to_sympy
+
+    def contracted(fn, origin, model_args=None):
+        res = orig(fn, origin, model_args)
+        if origin == "c06":
+            _CONTRACT["top" if model_args is None or all(isinstance(m, sympy.Symbol) and len(str(m)) == 1 for m in model_args) else "nested"] += 1
+            # post: the expression speaks only about the model arguments (or the function's own parameters)
+            if isinstance(res, sympy.Basic):
+                try:
+                    own = {sympy.Symbol(p) for p in fn.__code__.co_varnames[: fn.__code__.co_argcount]}
+                    allowed = set().union(*[m.free_symbols for m in model_args]) if model_args else own
+                    extra = res.free_symbols - allowed
+                    if extra:
+                        _CONTRACT["violations"].append((fn.__name__, sorted(map(str, extra))))
+                except Exception:  # noqa: BLE001
+                    pass
+        return res
+
+    contracted.__c06_wrapped__ = orig
+    st.fn_to_sympy = contracted
+
+
+# ---------------------------------------------------------------------------
+# workers, replay, run
+
+
+def _work(task):
+    import logging
+
+    logging.disable(logging.WARNING)
+    import mxlpy.meta.source_tools as st
+
+    pkgdir, modname, cases = task
+    install_contract(st)
+    _CONTRACT.update(top=0, nested=0, violations=[])
+    res = run_cases(pkgdir, modname, cases)
+    out = {"n": len(res), "outcomes": {}, "failures": [], "compared": 0, "translations": 0, "nontrivial": 0, "ren": [0, 0, 0], "samples": [],
+           "contract": (_CONTRACT["top"], _CONTRACT["nested"], len(_CONTRACT["violations"])), "raised": {}}
+    for r in res:
+        oc = r["outcome"]
+        out["outcomes"][oc] = out["outcomes"].get(oc, 0) + 1
+        out["compared"] += r["compared"]
+        out["translations"] += r["translations"]
+        out["ren"][0] += r["ren_struct"]
+        out["ren"][1] += r["ren_numeric"]
+        out["ren"][2] += r["ren_refused"]
+        if oc == "translated" and r["compared"] > 0:
+            out["nontrivial"] += 1
+            if len(out["samples"]) < 1 and not r["failures"]:
+                out["samples"].append({"source": r["source"], "expression": r.get("expr"), "points_compared": r["compared"]})
+        if oc.startswith("raised"):
+            out["raised"].setdefault(oc + ":" + r["tag"].split(":")[0] + ":" + r["tag"].split(":")[1], r["source"])
+        for f in r["failures"]:
+            out["failures"].append({"key": failure_key(r["tag"], r["source"], r["params"], f), "tag": r["tag"], "source": r["source"], "params": r["params"], **f})
+    return out
+
+
+def replay(w: dict):
+    """re-run one witness on the real code in a fresh package; returns the failure dict or None"""
+    import mxlpy.meta.source_tools as st
+
+    d = make_package()
+    try:
+        src = w["source"]
+        name = src.split("(")[0].split()[1]
+        body = [ln[4:] for ln in src.splitlines()[1:]]
+        modname = "c06rep_" + hashlib.sha256(src.encode()).hexdigest()[:10]
+        mod = load_module(d, modname, [(name, tuple(w["params"]), body)])
+        fn = getattr(mod, name)
+        ren = w.get("renaming")
+        kind, e = translate(st, fn, ren)
+        sys.modules.pop(modname, None)
+        if kind != "expr":
+            return None
+        args = tuple(w["args"])
+        pv = py_eval(fn, args)
+        names = ren if ren is not None else w["params"]
+        sigma = {}
+        for nme, v in zip(names, args):
+            sigma.setdefault(nme, v)
+        k2, sv = sym_eval(e, sigma)
+        if pv is None or (k2 == "num" and close(pv, sv)):
+            return None
+        return {"python": pv, "sympy": sv, "expr": str(e)[:200]}
+    finally:
+        shutil.rmtree(d, ignore_errors=True)
+
+
+def _chunks(xs, size):
+    return [xs[i : i + size] for i in range(0, len(xs), size)]
+
+
+def run(ctx: Ctx) -> None:
+    import logging
+
+    logging.disable(logging.WARNING)
+    t0 = time.time()
+    import mxlpy.meta.source_tools as st  # import before forking so that the workers inherit it
+
+    tier = ctx.tier
+    pkgdir = make_package()
+    try:
+        e1 = e1_cases()
+        e2, e2_bound = e2_cases(tier)
+        e3, e3_info, n_entries = e3_cases(tier)
+        const_bad, n_const = check_constants()
+        tasks = []
+        for part, cases, size in (("e1", e1, 40), ("e2", e2, 60), ("e3", e3, 80)):
+            for i, ch in enumerate(_chunks(cases, size)):
+                tasks.append((part, (pkgdir, f"c06gen_{part}_{i}", ch)))
+        workers = max(1, min(14, (os.cpu_count() or 2) - 2))
+        try:
+            pool = ProcessPoolExecutor(max_workers=workers, mp_context=mp.get_context("fork"))
+        except Exception:  # noqa: BLE001
+            pool = None
+        if pool is not None:
+            with pool:
+                results = list(pool.map(_work, [t[1] for t in tasks], chunksize=1))
+        else:
+            results = [_work(t[1]) for t in tasks]
+    finally:
+        shutil.rmtree(pkgdir, ignore_errors=True)
+
+    seen = set()
+    for part in ("e1", "e2", "e3"):
+        rs = [r for (p, _), r in zip(tasks, results) if p == part]
+        n = sum(r["n"] for r in rs)
+        outcomes: dict = {}
+        for r in rs:
+            for k, v in r["outcomes"].items():
+                outcomes[k.split(":")[0]] = outcomes.get(k.split(":")[0], 0) + v
+        nontrivial = sum(r["nontrivial"] for r in rs)
+        top = sum(r["contract"][0] for r in rs)
+        nested = sum(r["contract"][1] for r in rs)
+        if top == 0 or (part == "e1" and nested == 0):
+            raise CheckerError(f"{part}: the contract wrapper around fn_to_sympy was never evaluated (top={top}, nested={nested})")
+        if nontrivial == 0:
+            raise CheckerError(f"{part}: no body was translated and compared")
+        for r in rs:
+            for f in r["failures"]:
+                if f["key"] in seen:
+                    continue
+                seen.add(f["key"])
+                w = {k: f[k] for k in ("source", "params", "renaming", "args")}
+                try:
+                    again = replay(w)
+                except Exception:  # noqa: BLE001
+                    again = None
+                what = (f"{f['symptom']}: python={f['python']} sympy={f['sympy']} at {dict(zip(f['renaming'] or f['params'], f['args']))}"
+                        f"{' after renaming to ' + str(f['renaming']) if f['renaming'] else ''}; expr={f['expr']}; " + " / ".join(f["source"].splitlines()[1:]))[:400]
+                ctx.fail(key=f["key"], kind="bounded", what=what, witness=w, replayed=again is not None,
+                         detail={"tag": f["tag"], "python": f["python"], "sympy": f["sympy"], "expression": f["expr"], "replay": again,
+                                 "features": body_features(f["source"])})
+        raised: dict = {}
+        for r in rs:
+            for k, v in r["raised"].items():
+                raised.setdefault(k, v)
+        ctx.extra.setdefault("translator_raised_instead_of_returning_None", {}).update({k: v for k, v in sorted(raised.items())[:8]})
+        names = {"e1": "C06-leaves", "e2": "C06-statement-skeletons", "e3": "C06-tables"}
+        bounds = {
+            "e1": (f"{len(VALUE_LEAVES)} value expressions x {len(VALUE_CONTEXTS)} statement contexts + {len(COND_LEAVES)} tests x {len(COND_CONTEXTS)} contexts "
+                   f"x all renamings of the model arguments ({len(REN2)} for two parameters, {len(REN3)} for three)"),
+            "e2": e2_bound,
+            "e3": (f"{n_entries} KNOWN_FNS entries x literal argument tuples on which Python defines a value ({len(T_UN)} floats, {len(T_INT_UN)} ints, "
+                   f"{len(T_BIN_Q if tier == 'quick' else T_BIN_T)}^2 float pairs, {len(T_INT_BIN)} int pairs) + each entry applied to arguments; {n_const} KNOWN_CONSTANTS entries"),
+        }
+        ctx.add_bounded(
+            name=names[part], tool="generated source modules + real fn_to_sympy; oracle = CPython running the same source; symbolic evaluation (Floats, lazy Piecewise) + lambdify nomination",
+            bound=bounds[part] + f"; outcomes {outcomes}; {sum(r['translations'] for r in rs)} translations, {sum(r['compared'] for r in rs)} point comparisons; "
+                  f"renamings: {sum(r['ren'][0] for r in rs)} equal to the simultaneous renaming structurally, {sum(r['ren'][1] for r in rs)} compared numerically, {sum(r['ren'][2] for r in rs)} refused; "
+                  f"fn_to_sympy contract evaluated {top} times at top level, {nested} times for nested calls",
+            cases=n - outcomes.get("vacuous", 0), distinct_nontrivial=nontrivial,
+            rule="one case = one generated function (distinct source text) put through the contract under its renamings; vacuous bodies (Python defines no value on the grid) are not counted; "
+                 "non-trivial = translated to an expression (not refused) and compared with Python on >= 1 defined grid point",
+            exhaustive=part != "e2" or tier == "thorough", samples=[x for r in rs for x in r["samples"]][:3],
+        )
+    for k, v in const_bad:
+        ctx.fail(key=f"bounded:value-differs:constant:{k}", kind="bounded", what=f"KNOWN_CONSTANTS maps {k} to {v}", witness={"constant": k}, replayed=True, detail={})
+    ctx.extra["table"] = e3_info
+    ctx.extra["wall_bounded_s"] = round(time.time() - t0, 1)
+    ctx.trust(
+        "CPython executing the generated source is the meaning of the function (the oracle)",
+        "sympy: constructors evaluate on Float arguments; xreplace is simultaneous (used as a shortcut to skip numeric comparison of a renaming, never to report)",
+        "sympy.lambdify(modules='math') only nominates points, every reported mismatch is confirmed by symbolic evaluation",
+        "importlib/inspect.getsource on real files in a per-run temporary package",
+    )
+    ctx.assume(
+        f"values agree when |python - sympy| <= {RTOL} * max(1, |values|): sympy Floats carry 53-bit mantissas and may re-associate; grid values are dyadic so branch tests on sums/differences/products are exact",
+        "a point where Python raises, returns None, a complex number, nan or inf is a point where the function is not defined: nothing is claimed there",
+        "an exception escaping fn_to_sympy is a visible refusal (no expression), recorded under translator_raised_instead_of_returning_None, not a violation",
+    )
+    logging.disable(logging.NOTSET)
